@@ -215,10 +215,27 @@ def dec(name, r):
     raise KeyError(name)
 
 
+_SORTED_ITER = []
+
+
+def iterates_sorted():
+    """Does simplify_specifiers go through the set in a stable (text-sorted) order (repair of the hash-order iteration), or
+    in the set's own iteration order?  Probed: with three spellings of one version the surviving one is the first in the
+    order used; six probes all agreeing with the sorted order cannot happen by chance (1/3^6)."""
+    if not _SORTED_ITER:
+        from bfg9000.versioning import simplify_specifiers, SpecifierSet
+        ok = True
+        for k in range(1, 7):
+            t = '>=%d.0,>=%d.00,>=%d.000' % (k, k, k)
+            ok = ok and [str(i) for i in simplify_specifiers(SpecifierSet(t))] == ['>=%d.0' % k]
+        _SORTED_ITER.append(ok)
+    return _SORTED_ITER[0]
+
+
 def impl_simplify(text):
     from bfg9000.versioning import simplify_specifiers, SpecifierSet
     ss = SpecifierSet(text)
-    order = [[opcode(i.operator), i.version] for i in ss]
+    order = [[opcode(i.operator), i.version] for i in (sorted(ss, key=str) if iterates_sorted() else ss)]
     try:
         return order, canon_specs(simplify_specifiers(ss))
     except ValueError:
@@ -346,7 +363,8 @@ def canon_ver(v):
 
 def model_reqs(lst):
     from bfg9000.versioning import SpecifierSet
-    return [[n, [[opcode(i.operator), i.version] for i in SpecifierSet(t)]] for n, t in lst]
+    return [[n, [[opcode(i.operator), i.version] for i in (sorted(SpecifierSet(t), key=str) if iterates_sorted() else SpecifierSet(t))]]
+            for n, t in lst]
 
 
 def canon_simple(s, canon=False):
@@ -379,7 +397,7 @@ def stage_w_reqs(rep, rng, n, variant):
         # split of every merged requirement, in the iteration order the implementation uses
         for rs, single in ((requires, True), (requires_private, True), (conflicts, False)):
             for r in rs:
-                order = [[opcode(i.operator), i.version] for i in r.version]
+                order = [[opcode(i.operator), i.version] for i in (sorted(r.version, key=str) if iterates_sorted() else r.version)]
                 try:
                     res = sorted((canon_simple(s) for s in r.split(single)), key=repr)
                     rep.count('split:ok')
